@@ -1097,6 +1097,11 @@ buildCommand(BuildContext& context, ninja::Command* command) {
       if (value.isSuccessfulCommand()) {
         hasPriorResult = true;
         priorCommandHash = value.getCommandHash();
+      } else if (value.isFailedCommand()) {
+        // A command that failed the last time it ran must be retried, even if
+        // it left outputs behind that look up to date (this matters for
+        // generator commands, which do not need a prior result otherwise).
+        canUpdateIfNewer = false;
       }
     }
 
